@@ -47,6 +47,10 @@ WINDOW_TEMPLATES = {
     "timed-send-close-r": ("0",  ["sendot 1 300", "close r"]),
     "timed-send-disc":    ("0",  ["drop r;sendt 1 300", "drop r"]),
     "timed-sendo-disc":   ("0",  ["drop r;sendot 1 300", "drop r"]),
+    # a deadline far away: the waiter must be released by the disconnect / close itself, not by its timeout (promptness rule of `stuck`)
+    "timed-recv-disc-long": ("0",  ["drop s;recvt 90000000", "drop s"]),
+    "timed-send-disc-long": ("0",  ["drop r;sendt 1 90000000", "drop r"]),
+    "timed-recv-close-long": ("0", ["recvt 90000000", "close s"]),
     "timed-send-peer":    ("0",  ["sendt 1 300", "recv"]),
     "timed-sendo-peer":   ("0",  ["sendot 1 300", "tryr 0;tryr 0"]),
     "timed-recv-close":   ("0",  ["recvt 300", "close s"]),
@@ -71,6 +75,8 @@ WINDOW_TEMPLATES = {
     "drop-recv-close":    ("0",  ["arecv 0;pollr 0 2;droprf 0", "close s"]),
     "drop-send-close":    ("0",  ["asend 0 1;polls 0 2;dropsf 0", "close r"]),
     "stream-rewait":      ("0",  ["stream 0;pollr 0 2;pollr 0 2;pollr 0 3;pollr 0 3", "send 31;send 32"]),
+    # a wait of the stream completed through the changed-waker path (peer already holds the signal), then more polls with nothing sent
+    "stream-rewait2":     ("0",  ["stream 0;pollr 0 2;pollr 0 3;pollr 0 3;pollr 0 3;pollr 0 2;pollr 0 2", "try 31 0 0"]),
     # buffer refill and drain against a third party
     "refill-race":        ("1",  ["send 1;send 2", "recv", "try 61 0 0;len s"]),
     "refill-race-t":      ("1",  ["send 1;send 2", "recvt 100000", "try 61 0 0;len s"]),
@@ -704,6 +710,38 @@ def mon_drain(run):
     return bad
 
 
+def mon_prompt(run):
+    """C06/C11/C13: a blocked sync / timed call notices the final state of its signal at once: after a peer has stored UNLOCKED or TERMINATED
+    into the word the call is waiting on, the call loads that word at most a few more times (its next load sees the final value and the wait
+    ends) - it does not go on polling until its deadline.  Counts only the caller's own loads of that word, so a stalled lock holder or a
+    frozen thread cannot trip it."""
+    bad = []
+    for o in run.ops():
+        k = o["op"].split(" ")[0]
+        if k not in ("send", "recv", "sendt", "sendot", "recvt") or o["ret"] is None:
+            continue
+        span = range(o["call"], o["ret"])
+        loads = [i for i in span if run.events[i][0] == o["tid"] and run.events[i][1] == "ld" and run.events[i][2] and run.events[i][2][0].startswith("a")]
+        if not loads:
+            continue
+        word = run.events[loads[-1]][2][0]
+        final = None
+        for i in span:
+            tid, kind, args = run.events[i]
+            if tid == o["tid"] or not args or args[0] != word:
+                continue
+            if (kind == "st" and len(args) >= 3 and args[2] in ("0", "1")) or (kind == "cas" and len(args) >= 6 and args[5] == "ok" and args[4] in ("0", "1")):
+                final = i
+                break
+        if final is None:
+            continue
+        later = [i for i in loads if i > final and run.events[i][2][0] == word]
+        if len(later) > 4:
+            bad.append(f"{o['tid']} {o['op']}: {len(later)} more loads of its signal word {word} after the peer stored the final state (event {final}): "
+                       f"the wait does not end when the signal is final")
+    return bad
+
+
 def mon_waker_life(run):
     """C07: a waker instance is only used (woken, cloned from) while it is alive: the peer must wake its own
     clone, never the instance stored inside the future, which dies with the future."""
@@ -764,7 +802,7 @@ ALL_MONITORS = {
     "orderings": lambda run, ctx: mon_orderings(run, ctx["ords"]),
     "peerproto": lambda run, ctx: mon_peer_protocol(run),
     "disconnect": lambda run, ctx: mon_disconnect(run),
-    "stuck": lambda run, ctx: mon_stuck(run, ctx["cap"]),
+    "stuck": lambda run, ctx: mon_stuck(run, ctx["cap"]) + mon_prompt(run),
     "mutex": lambda run, ctx: mon_mutex(run, ctx["ords"]),
     "realtime": lambda run, ctx: mon_realtime(run),
     "nonblocking": lambda run, ctx: mon_nonblocking(run),
